@@ -204,9 +204,9 @@ func tornKind(got, before, after observation) string {
 	da := got.diffNames(after)
 	switch {
 	case onlyPatches(db_):
-		return "stray-or-missing-patch-record-only(vs-before)"
+		return "patch-record-only(otherwise-before)"
 	case onlyPatches(da):
-		return "stray-or-missing-patch-record-only(vs-after)"
+		return "patch-record-only(otherwise-after)"
 	case got.get("frontier-pointer") == before.get("frontier-pointer"):
 		return "old-pointer-with-changed-keys"
 	case got.get("frontier-pointer") == after.get("frontier-pointer"):
